@@ -43,6 +43,7 @@ enum Op {
     CrossResponse { pending: usize, challenge_of_tok: usize, same_server: bool },
     ReplayResponse { of: usize, from: usize },
     MutatedResponse { of: usize },
+    Kick { id: u64 },
 }
 
 struct Model {
@@ -112,7 +113,7 @@ impl Property for C05 {
         "exploration"
     }
     fn rule(&self) -> String {
-        "A case = secure server 0 (plus server 1 with the same private key and protocol but its own challenge key), 3-8 identities/addresses (server client limit 1-4, so tables sized from it fill up) holding tokens that are good, sealed with a foreign key, for a foreign protocol id (one bit away from the server's, in any byte), listing only wrong hosts (another host, or near misses: a public address's ip with another port, the ip of one public address with the port of the other; the server has an IPv4 and an IPv6 public address with different ports), a mixed host list or only the server's second public address (valid), with expiry 1-4 s or 600 s; honest handshake steps with loss in either direction; the server clock stepped by 1-1500 ms around every expiry second; adversarial steps: a request presented from another address (stolen token), single-field corruptions of a request (a bit of the sealed token, the public expiry +-1 / +1000, protocol id - including the public field of a foreign-protocol token rewritten to the server's id -, version, nonce), cross-use - a response from a pending address sealed with that address's own key but echoing a challenge issued to another session (other id, same id with other user data, other server) -, a response replayed from another address, bit-flipped responses. Oracle at every ClientConnected{id, addr, user_data} (and for client_addr / user_data / clients_id right after): the trigger was an unmodified response from addr; addr had been challenged for an unmodified request whose token is sealed under this server's key and protocol, lists a public address, was unexpired (server second <= expiry when connecting, < expiry when requesting) and was first used from addr; id and user data are exactly those sealed in that token; the echoed challenge was issued by this server for id. Non-trivial: >= 1 connection established and >= 1 adversarial step after a challenge existed. Distinct = hash of the decoded operation trace.".into()
+        "A case = secure server 0 (plus server 1 with the same private key and protocol but its own challenge key), 3-8 identities/addresses (server client limit 1-4, so tables sized from it fill up) holding tokens that are good, sealed with a foreign key, for a foreign protocol id (one bit away from the server's, in any byte), listing only wrong hosts (another host, or near misses: a public address's ip with another port, the ip of one public address with the port of the other; the server has an IPv4 and an IPv6 public address with different ports), a mixed host list or only the server's second public address (valid), with expiry 1-4 s or 600 s; honest handshake steps with loss in either direction; the server clock stepped by 1-1500 ms around every expiry second; adversarial steps: a request presented from another address (stolen token), single-field corruptions of a request (a bit of the sealed token, the public expiry +-1 / +1000, protocol id - including the public field of a foreign-protocol token rewritten to the server's id -, version, nonce), cross-use - a response from a pending address sealed with that address's own key but echoing a challenge issued to another session (other id, same id with other user data, other server) -, a response replayed from another address, bit-flipped responses; the application removing a connected client (a full server, whose denial of a good request also counts as the token's first use, has room again). Oracle at every ClientConnected{id, addr, user_data} (and for client_addr / user_data / clients_id right after): the trigger was an unmodified response from addr; addr had been challenged for an unmodified request whose token is sealed under this server's key and protocol, lists a public address, was unexpired (server second <= expiry when connecting, < expiry when requesting) and was first used from addr; id and user data are exactly those sealed in that token; the echoed challenge was issued by this server for id. Non-trivial: >= 1 connection established and >= 1 adversarial step after a challenge existed. Distinct = hash of the decoded operation trace.".into()
     }
     fn assumptions(&self) -> Vec<String> {
         vec!["'first used from' = the first address whose request with that token this server answered".into(), "the server is updated before every presentation, so expiry is judged against its current second".into()]
@@ -121,7 +122,7 @@ impl Property for C05 {
         PbtCfg { cases: tier.pick(300_000, 5_000_000), max_len: tier.pick(500, 1500), shrink_ms: 120_000 }
     }
     fn required_labels(&self) -> Vec<&'static str> {
-        vec!["connected", "stolen_request", "corrupt_request", "cross_response", "cross_same_id", "cross_other_server", "replay_response", "expired_at_request", "near_expiry", "bad_token_request", "stolen_request_small_server", "protocol_rewritten", "second_public_address"]
+        vec!["connected", "stolen_request", "corrupt_request", "cross_response", "cross_same_id", "cross_other_server", "replay_response", "expired_at_request", "near_expiry", "bad_token_request", "stolen_request_small_server", "protocol_rewritten", "second_public_address", "denied_binds_token", "kick"]
     }
     fn run_choices(&self, ctx: &mut Ctx) -> Outcome {
         let mut nw = NetWorld::new(ctx.src.u16() as u64);
@@ -176,6 +177,17 @@ impl Property for C05 {
             let out = nw.server_recv(0, from, bytes);
             match &out {
                 SrvOut::Send { did, .. } => {
+                    if nw.pool[*did].kind == 1 {
+                        // denied because the server is full: an answer all the same, so the token is used from this address from now on
+                        if let Meta::Request { tok, modified: false } = &meta {
+                            let now_s = nw.servers[0].server.current_time().as_secs();
+                            let t = &mut m.toks[*tok];
+                            if (t.flaw == Flaw::None || t.flaw == Flaw::MixedHost) && now_s < t.expire_ts && t.first_addr.is_none() {
+                                t.first_addr = Some(from);
+                                ctx.label("denied_binds_token");
+                            }
+                        }
+                    }
                     if nw.pool[*did].kind == 2 {
                         // a challenge: remember for whom it was issued (decode with the token's key) and the address binding
                         if let Meta::Request { tok, modified } = &meta {
@@ -218,7 +230,7 @@ impl Property for C05 {
 
         while !ctx.src.exhausted() && ops < max_ops {
             ops += 1;
-            let op = match ctx.src.weighted(&[22, 8, 5, 6, 8, 3, 3]) {
+            let op = match ctx.src.weighted(&[22, 8, 5, 6, 8, 3, 3, 2]) {
                 0 => {
                     let c = ctx.src.below(n);
                     let lost_up = ctx.src.chance(30);
@@ -418,6 +430,17 @@ impl Property for C05 {
                     let echo = peek_response(&d.bytes, PROTO, &nw.clients[owner].token.client_to_server_key).map(|r| r.0);
                     present(&mut nw, &mut m, ctx, client_addr(from), &d.bytes, Meta::Response { echo_seq: echo, modified: false })?;
                     Op::ReplayResponse { of: owner, from }
+                }
+                7 => {
+                    // the application removes a connected client: a full server has room again
+                    let ids = nw.servers[0].server.clients_id();
+                    if ids.is_empty() {
+                        continue;
+                    }
+                    let id = ids[ctx.src.below(ids.len())];
+                    nw.server_disconnect(0, id);
+                    ctx.label("kick");
+                    Op::Kick { id }
                 }
                 _ => {
                     let resps: Vec<usize> = nw.pool.iter().enumerate().filter(|(_, d)| d.kind == 3 && matches!(d.from, Emitter::Client(_))).map(|(i, _)| i).collect();
